@@ -102,15 +102,46 @@ func main() {
 				continue
 			}
 			rel, _ := filepath.Rel(*repo, fname)
+			// function declarations, and function literals in package-level variable initialisers
+			// (the validation rules are declared as `var XRule = Rule{RuleFunc: func…}`)
+			type unit struct {
+				name string
+				body ast.Node
+			}
+			var units []unit
 			for _, decl := range f.Decls {
-				fd, ok := decl.(*ast.FuncDecl)
-				if !ok || fd.Body == nil {
-					continue
+				switch d := decl.(type) {
+				case *ast.FuncDecl:
+					if d.Body == nil {
+						continue
+					}
+					fn := d.Name.Name
+					if d.Recv != nil && len(d.Recv.List) > 0 {
+						fn = named(info.TypeOf(d.Recv.List[0].Type)) + "." + fn
+					}
+					units = append(units, unit{fn, d.Body})
+				case *ast.GenDecl:
+					if d.Tok != token.VAR {
+						continue
+					}
+					for _, sp := range d.Specs {
+						vs, ok := sp.(*ast.ValueSpec)
+						if !ok {
+							continue
+						}
+						for i, v := range vs.Values {
+							name := "var"
+							if i < len(vs.Names) {
+								name = "var " + vs.Names[i].Name
+							}
+							units = append(units, unit{name, v})
+						}
+					}
 				}
-				fn := fd.Name.Name
-				if fd.Recv != nil && len(fd.Recv.List) > 0 {
-					fn = named(info.TypeOf(fd.Recv.List[0].Type)) + "." + fn
-				}
+			}
+			for _, u := range units {
+				fn := u.name
+				fdBody := u.body
 				add := func(pos token.Pos, kind, typ, fld string) {
 					rows = append(rows, row{p.Name, rel, p.Fset.Position(pos).Line, fn, kind, typ, fld})
 				}
@@ -143,7 +174,7 @@ func main() {
 						}
 					}
 				}
-				ast.Inspect(fd.Body, func(n ast.Node) bool {
+				ast.Inspect(fdBody, func(n ast.Node) bool {
 					switch x := n.(type) {
 					case *ast.AssignStmt:
 						if x.Tok == token.DEFINE {
